@@ -4,6 +4,8 @@ package actor
 
 import (
 	"context"
+	"fmt"
+	"runtime"
 	"sync/atomic"
 	"testing"
 	"time"
@@ -230,4 +232,191 @@ func TestVerifC02FairStall(t *testing.T) {
 		_ = Tell(ctx, pid, m3)
 		out.LaterHandled = vdWaitUntil(500*time.Millisecond, func() bool { c, _ := rec.snapshot(); return c[3] > 0 })
 	}
+}
+
+// ---------------------------------------------------------------- a stopped actor with a non-empty disposed mailbox
+type c02ZombieOut struct {
+	Completed        bool    `json:"completed"`
+	Why              string  `json:"why"`
+	Workers          int     `json:"dispatcher_workers"`
+	Zombies          int     `json:"stopped_actors_with_leftover_messages"`
+	MailboxKind      string  `json:"mailbox"`
+	LenAfterStop     []int64 `json:"mailbox_len_after_stop"`
+	EmptyAfterStop   []bool  `json:"mailbox_is_empty_after_stop"`
+	DequeuesIn100ms  []int64 `json:"dequeue_calls_in_100ms_after_stop"`
+	Spinning         bool    `json:"worker_spins_on_stopped_actor"`
+	LiveActorHandled bool    `json:"message_to_live_actor_handled"`
+	LiveActorWaitMs  int64   `json:"live_actor_wait_ms"`
+}
+
+// TestVerifC02StoppedActorSpin: actors that stop themselves (ctx.Shutdown from the handler) while messages
+// remain in their BoundedMailbox. Shutdown disposes the mailbox; if the disposed mailbox still reports
+// non-empty while Dequeue returns nil, the worker that runs the turn reclaims for ever. With as many such
+// actors as dispatcher workers, a message accepted by a LIVE actor is never handled.
+func TestVerifC02StoppedActorSpin(t *testing.T) {
+	w := newVerifWriter(t, "c02_zombie_out.jsonl")
+	defer w.close()
+	out := c02ZombieOut{MailboxKind: "BoundedMailbox(16)"}
+	defer func() { w.put(out) }()
+	old := runtime.GOMAXPROCS(2)
+	defer runtime.GOMAXPROCS(old)
+	ctx := context.Background()
+	sys, err := vdNewSystem("c02zombie")
+	if err != nil {
+		out.Why = err.Error()
+		return
+	}
+	defer func() {
+		done := make(chan struct{})
+		go func() { _ = sys.Stop(ctx); close(done) }()
+		vdWait(done, 5*time.Second)
+	}()
+	out.Workers = len(sys.(*actorSystem).dispatcher.workers)
+	out.Zombies = out.Workers
+	liveRec := newVdRecorder()
+	live, err := sys.Spawn(ctx, "live", &vdActor{rec: liveRec}, WithLongLived())
+	if err != nil {
+		out.Why = err.Error()
+		return
+	}
+	var gates []*vdGateMailbox
+	var zs []*PID
+	for i := 0; i < out.Zombies; i++ {
+		g := newVdGateMailbox(NewBoundedMailbox(16))
+		z, err := sys.Spawn(ctx, fmt.Sprintf("z%d", i), &vdActor{rec: newVdRecorder()}, WithLongLived(), WithMailbox(g))
+		if err != nil {
+			out.Why = err.Error()
+			return
+		}
+		gates, zs = append(gates, g), append(zs, z)
+	}
+	for i, z := range zs {
+		if !vdWaitUntil(5*time.Second, func() bool { return z.schedState.Load() == dispatchIdle && gates[i].inner.IsEmpty() }) {
+			out.Why = "actor did not become idle"
+			return
+		}
+	}
+	// each actor: a first message whose handler is held, two more queued behind it, then the handler stops the actor
+	var rels []chan struct{}
+	for _, z := range zs {
+		m := &vdMsg{ID: 1, Entered: make(chan struct{}), Block: make(chan struct{}), Stop: true}
+		if err := Tell(ctx, z, m); err != nil {
+			out.Why = err.Error()
+			return
+		}
+		if !vdWait(m.Entered, 5*time.Second) {
+			out.Why = "first message not handled"
+			return
+		}
+		_ = Tell(ctx, z, &vdMsg{ID: 2})
+		_ = Tell(ctx, z, &vdMsg{ID: 3})
+		rels = append(rels, m.Block)
+	}
+	for _, r := range rels {
+		close(r)
+	}
+	for _, z := range zs {
+		vdWaitUntil(5*time.Second, func() bool { return !z.IsRunning() })
+	}
+	time.Sleep(20 * time.Millisecond)
+	out.Completed = true
+	before := make([]int64, len(gates))
+	for i, g := range gates {
+		before[i] = g.hits[gpDeqBefore].Load()
+	}
+	time.Sleep(100 * time.Millisecond)
+	for i, g := range gates {
+		d := g.hits[gpDeqBefore].Load() - before[i]
+		out.DequeuesIn100ms = append(out.DequeuesIn100ms, d)
+		out.LenAfterStop = append(out.LenAfterStop, g.inner.Len())
+		out.EmptyAfterStop = append(out.EmptyAfterStop, g.inner.IsEmpty())
+		if d > 1000 {
+			out.Spinning = true
+		}
+	}
+	t0 := time.Now()
+	if err := Tell(ctx, live, &vdMsg{ID: 77}); err != nil {
+		out.Why = "live actor rejected the message: " + err.Error()
+		return
+	}
+	out.LiveActorHandled = vdWaitUntil(2*time.Second, func() bool { c, _ := liveRec.snapshot(); return c[77] > 0 })
+	out.LiveActorWaitMs = time.Since(t0).Milliseconds()
+}
+
+// ---------------------------------------------------------------- grain: the reclaim race, worker emulated with the grain's own methods
+type c02GrainReclaimOut struct {
+	Completed bool   `json:"completed"`
+	Why       string `json:"why"`
+	OwnedTurn bool   `json:"owned_turn"`
+	EmptyDeq  bool   `json:"dequeue_was_nil"`
+	Exit      bool   `json:"finishOrReclaim_said_exit"`
+	Stranded  bool   `json:"message_stranded_idle_nonempty"`
+	Handled   bool   `json:"handled"`
+	State     string `json:"state_after"`
+}
+
+// TestVerifC02GrainReclaim: the turn loop of grainPID.runTurn is played by hand (TakeForProcessing; dequeue
+// responses; dequeue mailbox -> nil), then a real producer (grainPID.receive) enqueues while the state is
+// still Processing (its TrySchedule fails), then the REAL finishOrReclaim runs: it must reclaim the turn
+// (return false); otherwise the message stays in the mailbox with the state Idle and no ticket.
+func TestVerifC02GrainReclaim(t *testing.T) {
+	w := newVerifWriter(t, "c02_grain_reclaim_out.jsonl")
+	defer w.close()
+	var out c02GrainReclaimOut
+	defer func() { w.put(out) }()
+	ctx := context.Background()
+	sys, err := vdNewSystem("c02grainreclaim")
+	if err != nil {
+		out.Why = err.Error()
+		return
+	}
+	defer sys.Stop(ctx)
+	rec := newVdRecorder()
+	id, err := sys.GrainIdentity(ctx, "g1", func(context.Context) (Grain, error) { return &vdGrain{rec: rec}, nil }, WithLongLivedGrain())
+	if err != nil {
+		out.Why = err.Error()
+		return
+	}
+	if err := sys.TellGrain(ctx, id, &vdMsg{ID: 1}); err != nil {
+		out.Why = "activation: " + err.Error()
+		return
+	}
+	x := sys.(*actorSystem)
+	pid, err := x.ensureGrainProcess(ctx, id)
+	if err != nil || pid == nil {
+		out.Why = "no grain process"
+		return
+	}
+	if !vdWaitUntil(5*time.Second, func() bool { return pid.schedState.Load() == dispatchIdle && pid.mailbox.IsEmpty() }) {
+		out.Why = "grain did not become idle"
+		return
+	}
+	// the worker, by hand: take the turn without a ticket
+	out.OwnedTurn = pid.schedState.TrySchedule() && pid.schedState.TakeForProcessing()
+	if !out.OwnedTurn {
+		out.Why = "could not take the turn"
+		return
+	}
+	out.EmptyDeq = pid.dequeueResponse() == nil && pid.mailbox.Dequeue() == nil
+	// a real producer while the state is Processing
+	gctx := getGrainContext()
+	gctx.build(ctx, pid, x, id, &vdMsg{ID: 2}, grainTell)
+	pid.receive(gctx)
+	out.Completed = true
+	out.Exit = pid.finishOrReclaim()
+	if out.Exit {
+		out.Stranded = !pid.mailbox.IsEmpty() && pid.schedState.Load() == dispatchIdle
+	} else {
+		// continue the turn as runTurn does
+		if m := pid.mailbox.Dequeue(); m != nil {
+			pid.dispatchOne(m)
+		}
+		for i := 0; i < 4 && !pid.finishOrReclaim(); i++ {
+			if m := pid.mailbox.Dequeue(); m != nil {
+				pid.dispatchOne(m)
+			}
+		}
+	}
+	out.Handled = vdWaitUntil(300*time.Millisecond, func() bool { c, _ := rec.snapshot(); return c[2] > 0 })
+	out.State = c01StateNameLib(pid.schedState.Load())
 }
